@@ -437,7 +437,7 @@ func tun(raw json.RawMessage) (interface{}, error) {
 	case "maxSegFileSize":
 		config.SetMaxSegFileSize(uint64(a.Value))
 	case "gomaxprocs":
-		runtime.GOMAXPROCS(int(a.Value))
+		return map[string]interface{}{"prev": runtime.GOMAXPROCS(int(a.Value))}, nil
 	default:
 		if f, ok := tunables[a.Name]; ok {
 			return nil, f(a.Value)
